@@ -237,6 +237,13 @@ def _construct(ctx, inp, desc, irows, tmpdir):
             kw["F"] = np.array(F, dtype=np.int64)
         if C:
             kw["C"] = np.array(C, dtype=np.int64)
+        # an element kind that is absent may be given as an array with zero rows (what slicing or filtering an index array yields) instead of
+        # being left out: the finished object depends on the elements present, not on which arguments were passed
+        rz = random.Random(desc["seed"] ^ 0xe0)
+        for name, width in (("E", 2), ("F", 3), ("C", 4)):
+            if name not in kw and rz.random() < 0.4:
+                kw[name] = np.zeros((0, width), dtype=np.int64)
+                ctx.cls("from_arrays:zero_row_array_for_" + name)
         return M.mesh.from_arrays(Va, **kw), route
     # file route: minimal independent writers (obj for dim <= 2, medit for tets).  Variant: the file holds only part of the faces; it is read as raw
     # data (load(raw=True)), the caller appends the remaining faces to the raw container, and the mesh is built from that
